@@ -1,5 +1,5 @@
 # replay of a bounded stand-in violation: re-run native/c01_backends.py
 import sys
-print("Sgate(0.3, 0.8) | q[1] of 2 after Del | q[0] (indices shifted by one) on fock: raised ValueError: axes don't match array")
+print('Catstate(0.6, -0.7, p=0.3); Rgate; BSgate on bosonic/real: quadrature moments / photon numbers [-0.2365, -0.2737, -0.1518, 0.1337, 0.2333, 0.1954, 0.1169, 0.0829] differ from the fock simulator [-0.1094, -0.2619, -0.2588, 0.0, -0.1698, -0.2367, 0.1169, 0.0829]')
 print('REPLAY-VIOLATION')
 sys.exit(1)
